@@ -47,9 +47,17 @@ def reference(st, surfaces, flow, rotational=False, ground=False):
                 return []
             return [(ghosts[s], i, meshes[s].shape[1] - 2 - j, 1.0)]
 
-    return refvlm.solve(meshes, flow["alpha"], flow.get("beta", 0.0), v=flow["v"], rho=flow["rho"],
-                        omega=(np.array(flow["omega"], float) if rotational else None),
-                        cg=(np.array(flow.get("cg", [0, 0, 0]), float) if rotational else None), tied=tied)
+    ref = refvlm.solve(meshes, flow["alpha"], flow.get("beta", 0.0), v=flow["v"], rho=flow["rho"],
+                       omega=(np.array(flow["omega"], float) if rotational else None),
+                       cg=(np.array(flow.get("cg", [0, 0, 0]), float) if rotational else None), tied=tied)
+    # round-off of the double-precision kernel evaluation itself, measured against an extended-precision assembly of the same matrix
+    # (an image or neighbouring filament a few 1e-2 chords from an evaluation point costs several digits in any implementation)
+    if len(ref["panels"]) <= 400:
+        Ax = refvlm.aic_extended(meshes, flow["alpha"], tied=tied)
+        ref["A_roundoff"] = float(np.abs(np.asarray(Ax - ref["A"], dtype=float)).max())
+    else:
+        ref["A_roundoff"] = 0.0
+    return ref
 
 
 def compare(o, st, ref, fam, rtol=1e-9, tags=()):
@@ -59,7 +67,11 @@ def compare(o, st, ref, fam, rtol=1e-9, tags=()):
     o.close(fam + "/force_pts", st["force_pts"], ref["fpt"], rtol=rtol, tags=tags)
     o.close(fam + "/bound_vecs", st["bound_vecs"], ref["bnd"], rtol=rtol, tags=tags)
     o.close(fam + "/normals", st["normals"], ref["nrm"], rtol=rtol, tags=tags)
-    o.close(fam + "/aic", st["mtx"], ref["A"], rtol=rtol, tags=tags)
+    # round-off floor of the influence coefficients: the reference's own (measured against extended precision) and that of the
+    # repository's form of the segment kernel, eps * kappa * |velocity| (evaluation points a few 1e-4 segment lengths from a filament)
+    ro = 100.0 * ref.get("A_roundoff", 0.0) + 10.0 * np.finfo(float).eps * ref.get("kernel_amp", 0.0)
+    o.close(fam + "/aic", st["mtx"], ref["A"], rtol=rtol, atol=ro, tags=tags)
+    o.count("cases_with_kernel_roundoff_above_the_relative_tolerance", int(ro > rtol * np.abs(ref["A"]).max()))
     o.close(fam + "/rhs", st["rhs"], ref["rhs"], rtol=rtol, scale=max(v, np.abs(ref["rhs"]).max()), tags=tags)
     o.close(fam + "/circulations", st["circulations"], ref["G"], rtol=rtol * 10, tags=tags)
     o.close(fam + "/horseshoe", st["horseshoe"], ref["Gh"], rtol=rtol * 10, scale=np.abs(ref["G"]).max(), tags=tags)
